@@ -5,6 +5,7 @@ import (
 	"math/big"
 
 	"github.com/idena-network/idena-go/common"
+	"github.com/idena-network/idena-go/crypto"
 )
 
 // C11: a diff is COMPLETE when replaying it on a second tree performs the same tree operations (kind, key,
@@ -109,7 +110,7 @@ func H_C11a() {
 	vCover("end")
 }
 
-//verif:obligation C11.b tier=quick bounds=one-dirty-object-of-every-class(quick:7-classes-present-or-not+4-always;thorough:all-present-or-not)(account,identity,contract-value-set/removed,burnt-coins,contract-code,global,status-switch,delegation-switch,delayed-penalties,discrimination-switch),deleteEmptyObjects-both covers=nonempty,end
+//verif:obligation C11.b tier=quick bounds=one-dirty-object-of-every-class(quick:7-classes-present-or-not+4-always;thorough:all-present-or-not)(account,identity,contract-value-set/removed,burnt-coins,contract-code(new-or-already-stored),global,status-switch,delegation-switch,delayed-penalties,discrimination-switch),deleteEmptyObjects-both covers=nonempty,end
 // StateDB: the []*StateTreeDiff returned by Precommit (what AddBlock applies to the node's own state and
 // what a block's state diff is) replayed with AddDiff performs exactly the producer's tree operations.
 func H_C11b() {
@@ -138,7 +139,15 @@ func H_C11b() {
 		prod.AddBurntCoins(5, a1, "k", big.NewInt(int64(vU8("burnt.amount"))))
 	}
 	if vBool("code") {
-		prod.DeployWasmContract(a2, []byte{vU8("code.byte")})
+		code := []byte{vU8("code.byte")}
+		if vBool("code.alreadyStored") {
+			// the same code was deployed by an earlier block (it is stored under its hash and shared)
+			h := crypto.Hash(code)
+			prod.VTree().Set(StateDbKeys.ContractCodeKey(h), code)
+			sync.VTree().Set(StateDbKeys.ContractCodeKey(h), code)
+			prod.VTree().Trace, sync.VTree().Trace = nil, nil
+		}
+		prod.DeployWasmContract(a2, code)
 	}
 	if vBool("global") {
 		prod.SetEpochBlock(vU64("global.epochBlock"))
